@@ -801,9 +801,13 @@ class Gen:
                 if env["kind"] == "module":
                     env["sess"].discard(x)
             return ("del", sid, names, nested, txt)
-        if k < 0.69 and env["kind"] == "function":
+        if (k < 0.69 or (k < 0.74 and env.get("depth", 0) >= 2)) and env["kind"] == "function":
+            # `global` at every function depth; the names are module names from here on: the enclosing scopes read them later
             xs = list(dict.fromkeys(self.newname(env) for _ in range(r.choice([1, 2]))))
-            env["bound"] |= set(xs)
+            e = env
+            while e is not None:
+                e["bound"] |= set(xs)
+                e = e.get("parent")
             return ("global", sid, xs)
         if k < 0.72:
             kind = r.choice(["return", "raise", "assert"]) if env["kind"] == "function" else r.choice(["raise", "assert"])
@@ -824,7 +828,8 @@ class Gen:
             decos = [("n", self.nm(env))] if r.random() < 0.15 else []
             self.flush_walrus(env)
             self.bind(env, [f])
-            env2 = {"bound": env["bound"] | set(ps), "frame": set(ps), "kind": "function", "walrus": set(), "sess": env["sess"]}
+            env2 = {"bound": env["bound"] | set(ps), "frame": set(ps), "kind": "function", "walrus": set(), "sess": env["sess"],
+                    "parent": env, "depth": env.get("depth", 0) + 1}
             body = self.block(env2, depth + 1)
             sty = r.choice([None, None, "star", "posonly"] if self.runnable else [None, None, "star", "kw", "posonly", "kwonly"])
             if self.runnable and self.budget > 0 and r.random() < 0.75:
@@ -833,7 +838,8 @@ class Gen:
         if k < 0.85:
             cn = self.newname(env)
             bases = [("n", self.nm(env))] if r.random() < 0.3 else []
-            env2 = {"bound": set(env["bound"]), "frame": set(), "kind": "class", "walrus": set(), "sess": env["sess"]}
+            env2 = {"bound": set(env["bound"]), "frame": set(), "kind": "class", "walrus": set(), "sess": env["sess"],
+                    "parent": env, "depth": env.get("depth", 0) + 1}
             body = self.block(env2, depth + 1)
             self.bind(env, [cn])
             return ("cls", sid, cn, bases, body, [])
@@ -1518,6 +1524,30 @@ def _finish(ns, out, exc):
     return {"log": [list(x) for x in LOG], "out": re.sub(r"0x[0-9a-f]+", "0x?", out.getvalue())[:2000], "exc": _canon_exc(exc), "ns": cns}
 
 
+class _session_builtins:
+    """`aliases` / `events` in `builtins` are live session objects: a program that is not shadowing them (`aliases |= x`) would
+    change real state and the two runs would see different worlds.  For the length of a run they are logging values."""
+
+    def __enter__(self):
+        import json as _json
+        import json.decoder  # noqa: F401
+        import os as _os
+
+        self.saved = {n: getattr(builtins, n) for n in ("aliases", "events") if hasattr(builtins, n)}
+        for n in self.saved:
+            setattr(builtins, n, V(n))
+        # the modules a program can import: `os.x = 1` must not leak into the next run either
+        self.mods = [(m, dict(vars(m))) for m in (_os, _os.path, _json, _json.decoder)]
+
+    def __exit__(self, *a):
+        for n, v in self.saved.items():
+            setattr(builtins, n, v)
+        for m, d in self.mods:
+            vars(m).clear()
+            vars(m).update(d)
+        return False
+
+
 class _alarm:
     """a run that does not end (`while 1:`) is cut off: both interpreters then report RUNAWAY and the case is inconclusive"""
 
@@ -1543,6 +1573,7 @@ class _alarm:
 def run_python(src, names, mode="exec", lnames=()):
     import contextlib
 
+    Real.get()  # (the session must be loaded: `builtins` has xonsh's additions in both runs)
     ns = _world(names, lnames)
     out = io.StringIO()
     exc = None
@@ -1550,7 +1581,7 @@ def run_python(src, names, mode="exec", lnames=()):
     hook = sys.displayhook
     sys.displayhook = lambda v: shown.append(_tag(v)) if v is not None else None
     try:
-        with contextlib.redirect_stdout(out), contextlib.redirect_stderr(out), _alarm():
+        with contextlib.redirect_stdout(out), contextlib.redirect_stderr(out), _session_builtins(), _alarm():
             exec(compile(src, "<c02>", mode, dont_inherit=True), ns[0], ns[1])
     except BaseException as e:  # noqa: BLE001
         exc = e
@@ -1586,7 +1617,7 @@ def run_xonsh(src, names, mode="exec", lnames=()):
     for h in helpers:
         setattr(XSH, h, rec(h))
     try:
-        with contextlib.redirect_stdout(out), contextlib.redirect_stderr(out), _alarm():
+        with contextlib.redirect_stdout(out), contextlib.redirect_stderr(out), _session_builtins(), _alarm():
             real.ex.exec(src, mode=mode, glbs=ns[0], locs=ns[1], filename="<c02>")
     except BaseException as e:  # noqa: BLE001
         exc = e
